@@ -33,8 +33,13 @@ def main():
                      log=traceback.format_exc(), assumptions={}, translate_errors={},
                      checker_cmd='make (failed)')
     ctx.widen = not build['ok']
+    budget = int(os.environ.get('VERIF_CHECK_BUDGET', '1500' if a.tier == 'quick' else '5400'))
     try:
-        mod.run(ctx, build)
+        with lib.time_limit(budget, f'the whole {prop} check'):
+            mod.run(ctx, build)
+    except lib.Hang as exc:
+        ctx.violation('check/did-not-terminate', f'{exc} (an implementation call or the check itself hangs on this tree)',
+                      dict(note=str(exc), last_samples=ctx.samples[-2:]))
     except lib.BuildError as exc:
         infra = f'model runner / correspondence machinery broke: {exc}'
     except Exception:
